@@ -106,6 +106,29 @@ theorem sealed_one_sig_per_participant (m : ESigs) (order : List Nat) (ho : orde
   obtain ⟨a, _, c, d⟩ := h3 x hx
   exact ⟨a, c, d⟩
 
+/-- Whether a round counts as endorsed / committed does not depend on the iteration order of the Go map (only which
+    of several simultaneously qualifying proposers is reported can): for any two orders of the same keys the
+    verdicts "done" of endorseDone and of commitDone agree. -/
+theorem decision_independent_of_map_order (c : Cand) (o₁ o₂ : List Nat) (h : o₁.Perm o₂) (isEndorser : Nat → Bool)
+    (C N : Nat) :
+    (endorseDone c o₁ C).isSome = (endorseDone c o₂ C).isSome ∧
+    (commitDone c o₁ isEndorser C N).isSome = (commitDone c o₂ isEndorser C N).isSome :=
+  ⟨endorseDone_isSome_perm c o₁ o₂ h C, commitDone_isSome_perm c o₁ o₂ h isEndorser C N⟩
+
+/-- Duplicate detection of newBlockProposal and newBlockCommitment after any history: a further proposal of a recorded
+    proposer (commit of a recorded committer) never changes the records; it is answered `ok` when it repeats the
+    recorded signature (block hash) and `dup` (errDupProposal / errDupCommit) when it conflicts with it. -/
+theorem duplicate_messages_detected (msgs : List Msg) :
+    let c := runMsgs msgs
+    (∀ (p q : Proposal), q ∈ c.proposals → q.proposer = p.proposer →
+      newBlockProposal c p = (c, if q.sig = p.sig then .ok else .dup)) ∧
+    (∀ (m q : CommitMsg), q ∈ c.commitMsgs → q.committer = m.committer →
+      newBlockCommitment c m = (c, if q.hash = m.hash then .ok else .dup)) := by
+  intro c
+  have h := runMsgs_good msgs
+  exact ⟨fun p q hq hqp => newBlockProposal_dup c h.proposers p q hq hqp,
+    fun m q hq hqm => newBlockCommitment_dup c h.committers m q hq hqm⟩
+
 /-! ## Non-vacuity (tests by evaluation): N = 4, C = 1 -/
 
 private def hist : List Msg :=
